@@ -595,3 +595,16 @@ def guarded_take(ctx, rule, f, site, container, instance, errors=("IndexError", 
             return ctx.ob(rule, f, instance, True, node=st, by=("EAFP: " + "/".join(errors) + " handler",))
         prev, cur = cur, getattr(cur, "_parent", None)
     return ctx.require_at(rule, f, site, [[container]], instance=instance)
+
+
+def shielded_checkpoint_is_shielded(ctx, rule):
+    """(C08/R08-0, C04) every yield of cancel_shielded_checkpoint() happens inside `with CancelScope(shield=True)`: a cancellation that
+    arrives while the task is suspended there must not be delivered into code documented as shielded"""
+    from sa.engine.cfg import is_shield_with
+    csc = ctx.fn("AsyncIOBackend.cancel_shielded_checkpoint", A)
+    s = ctx.sites(csc, "await sleep(0)") + ctx.sites(csc, "await asyncio.sleep(0)")
+    aws = [n for n in own_walk(csc.node) if isinstance(n, ast.Await)]
+    ok = len(s) >= 1 and all(lexically_inside(a_, is_shield_with, stop=csc.node) for a_ in aws)
+    ctx.ob(rule, csc, "cancel_shielded_checkpoint() yields inside `with CancelScope(shield=True)`", ok,
+           detail="" if ok else "a yield of cancel_shielded_checkpoint is not shielded (or missing)", by=("shielded sleep(0)",))
+    dominates_all_exits(ctx, rule, csc, "await sleep(0)", "cancel_shielded_checkpoint() yields on every path")
